@@ -20,6 +20,13 @@ package dtls
 
 //@ define S12(c) c.state.(*dtlsstate.State12)
 //@ define LSN(c) S12(c).Common.LocalSequenceNumber
+//@ define S13(c) c.state.(*dtlsstate.State13)
+//@ define is12(c) typeIs(c.state, "*github.com/pion/dtls/v3/internal/state.State12")
+//@ define is13(c) typeIs(c.state, "*github.com/pion/dtls/v3/internal/state.State13")
+// wfState: the version state object exists and has its common block (established by newConn / Activate12 / Activate13).
+//@ define wfState(c) (is12(c) || is13(c)) && nonNilPayload(c.state) && (is12(c) ==> S12(c).Common != nil) && (is13(c) ==> S13(c).Common != nil)
+// wfConn: fields set once by newConn and never nil afterwards.
+//@ define wfConn(c) wfState(c) && c.log != nil && c.closed != nil && c.fragmentBuffer != nil && c.handshakeCache != nil && c.nextConn != nil
 //@ define has12(c) typeIs(c.state, "*github.com/pion/dtls/v3/internal/state.State12") && S12(c) != nil && S12(c).Common != nil
 
 //@ func Conn.nextLocalSequenceNumber
